@@ -10,8 +10,9 @@
 
    `variant` selects between the code as it is now (`current`: junction-inversion and slicing
    repairs f11f464 / 127fbf4 applied), the code before those repairs (`legacy`, kept only to
-   document the repaired defects) and the code with the proposed string-escaping repair
-   (`repaired`).  The correspondence check runs `current`. *)
+   document the repaired defects) and the code before string constants were escaped
+   (`prequote`: f11f464 / 127fbf4 applied, 60fb795 not).  The correspondence check runs `current`
+   = all three repairs applied. *)
 From Coq Require Import ZArith List Bool String Ascii Lia.
 Import ListNotations.
 Open Scope string_scope.
@@ -290,11 +291,11 @@ Definition bind {A B} (r : result A) (k : A -> result B) : result B :=
 Record variant := mkVariant {
   fix_inverted_merge : bool;     (* inverted NamedQuerys are not merged by name (f11f464) *)
   fix_slice : bool;              (* __getitem__ via slice.indices; top-level filter inside the SQL query (127fbf4) *)
-  fix_quote : bool               (* string constants are escaped (proposed) *)
+  fix_quote : bool               (* string constants are escaped (60fb795) *)
 }.
 Definition legacy := mkVariant false false false.
-Definition current := mkVariant true true false.
-Definition repaired := mkVariant true true true.
+Definition prequote := mkVariant true true false.
+Definition current := mkVariant true true true.
 
 Fixpoint flatten (k : jk) (q : qobj) : list qobj :=
   match q with
@@ -900,6 +901,6 @@ Definition case_labels_with (vr : variant) (c : case) : N :=
    + bit (on_pred c (quote_bad vr)) 1024                                          (* unescaped quote *)
    + bit (on_pred c has_shadow) 2048)%N.                                          (* shadowed path segment *)
 Definition case_labels := case_labels_with current.
-(* variants used when a repair is tried on a scratch copy, or the repaired ones reverted (VERIF_C10_VARIANT) *)
-Definition case_labels_repaired := case_labels_with repaired.
+(* variants describing the code with repairs reverted (VERIF_C10_VARIANT; regression experiments) *)
+Definition case_labels_prequote := case_labels_with prequote.
 Definition case_labels_legacy := case_labels_with legacy.
